@@ -116,6 +116,7 @@ def run(ctx):
                        (isinstance(x, ast.Name) and x.id in want) for x in ast.walk(fi.node))
             ctx.check('R1.4', uses, 'fst_core', fi.qualname, f'{q} enumerates children via {must}',
                       f'{q} must reach all children through the grammar-driven enumeration', fi.lineno)
+    check_primitive_puts(ctx)
 
 
 def check_bistr(ctx, fi, adopters=None):
@@ -301,3 +302,74 @@ def check_bistr(ctx, fi, adopters=None):
         return (frozenset(live), frozenset(bs))
 
     solve(cfg, (frozenset(), frozenset()), transfer, lambda a, b: (a[0] | b[0], a[1] & b[1]))
+
+
+# ---- R1.5 / R1.6 -------------------------------------------------------------------------------------------------------
+
+TEXT_CHANGERS = {'_put_src', '_put_one', '_put_slice', '_put_one_exprlike_required', '_put_one_exprlike_optional', '_put_one_identifier_required',
+                 '_put_one_identifier_optional', '_reparse_raw', '_put_one_raw', '_parenthesize_grouping', '_unparenthesize_grouping',
+                 '_delimit_node', '_undelimit_node'}
+PRIMITIVE_FIELDS = {'kind', 'is_async', 'level', 'simple', 'value', 'is_lazy', 'conversion', 'str'}
+
+
+R15_REVIEWED = {
+    ('_put_one_AnnAssign_simple', 'self.a.simple = value'):
+        'the parser sets simple=1 exactly for an unparenthesized Name target; the store is reached only when the value changes '
+        '(`value != self.a.simple`): 1 -> 0 on an unparenthesized Name parenthesizes it, 0 -> 1 on a parenthesized Name unparenthesizes it; the '
+        'remaining arm (0 requested, Name already parenthesized) has simple == 0 already and is not entered',
+}
+
+
+def check_primitive_puts(ctx):
+    """R1.5: in the put handlers of primitive fields (Constant.kind, comprehension.is_async, ImportFrom.level, AnnAssign.simple, constants) a
+    *new* value is stored into the AST only on paths that changed the source text (or went through a put that does): storing it where no
+    text was written makes the tree say one thing and the source another.
+    R1.6: the text written for a constant is its *source form*; `repr(value)` is not for Ellipsis ('Ellipsis' is a name), infinities ('inf')
+    and nan: a handler that splices `repr(value)` must deal with each of them (rewrite or reject)."""
+    from ..cfg import CFG, subnodes
+    ctx.rule('R1.5', 'a put handler of a primitive field stores the new value into the AST only after the source text was changed', 5)
+    ctx.rule('R1.6', 'a handler that writes repr(value) as source handles the values whose repr is not their source (Ellipsis, inf, nan)', 3)
+    n5 = 0
+    for fi in ctx.repo.all_funcs():
+        if isinstance(fi.node, ast.Lambda) or fi.module != 'fst_put_one' or not fi.name.startswith('_put_one_'):
+            continue
+        cfg = CFG(fi.node)
+        stores, changers = [], set()
+        for nd in cfg.nodes:
+            for x in subnodes(cfg, nd):
+                if isinstance(x, ast.Assign):
+                    for t in x.targets:
+                        if isinstance(t, ast.Attribute) and t.attr in PRIMITIVE_FIELDS and norm(t.value) in ('ast', 'self.a', 'a', 'parenta') and \
+                                not isinstance(x.value, ast.Constant):
+                            stores.append((nd, x))
+                if isinstance(x, ast.Call) and call_name(x) in TEXT_CHANGERS:
+                    changers.add(nd.id)
+        for nd, x in stores:
+            n5 += 1
+            unchanged = cfg.reachable(cfg.entry, lambda n_, lab, s: lab != 'exc', stop=changers) | {cfg.entry}
+            rv = R15_REVIEWED.get((fi.name, norm(x, 60)))
+            ctx.check('R1.5', nd.id not in unchanged or bool(rv), fi.module, fi.qualname, norm(x, 60),
+                      'the new value is stored into the AST on a path on which the source was not changed (e.g. the prefix / keyword could not be '
+                      'written): tree and source disagree from then on, verify() fails', x.lineno, sample={'function': fi.key, 'store': norm(x, 60)})
+        # R1.6
+        for c in walk_no_nested(fi.node):
+            if isinstance(c, ast.Call) and call_name(c) == 'repr' and c.args and isinstance(c.args[0], ast.Name):
+                # does it reach _put_src? directly as argument, or through a local
+                holder = None
+                for x in walk_no_nested(fi.node):
+                    if isinstance(x, ast.Call) and call_name(x) == '_put_src' and x.args and (x.args[0] is c or (isinstance(x.args[0], ast.Name) and any(
+                            isinstance(a_, ast.Assign) and norm(a_.targets[0]) == x.args[0].id and any(y is c for y in ast.walk(a_.value))
+                            for a_ in walk_no_nested(fi.node)))):
+                        holder = x
+                if holder is None:
+                    continue
+                consts = {y.value for y in walk_no_nested(fi.node) if isinstance(y, ast.Constant) and isinstance(y.value, str)}
+                has_ellipsis = any(isinstance(y, ast.Constant) and y.value is ... for y in walk_no_nested(fi.node)) or \
+                    any(isinstance(y, ast.Name) and y.id in ('Ellipsis', 'EllipsisType') for y in walk_no_nested(fi.node))
+                for what, ok in (('Ellipsis', has_ellipsis), ('inf', 'inf' in consts), ('nan', 'nan' in consts)):
+                    ctx.check('R1.6', ok, fi.module, fi.qualname, f'repr({c.args[0].id}) written as source: {what}',
+                              f'`repr(value)` is spliced as the source of the constant but nothing in the handler deals with {what}, whose repr is a name, not '
+                              f'a literal: the source re-parses to a Name while the tree holds a Constant', c.lineno,
+                              sample={'function': fi.key, 'case': what})
+    if n5 < 5:
+        raise AnalysisError(f'only {n5} primitive stores in put handlers found')
